@@ -114,6 +114,12 @@ std::vector<cfg_t> const &configs()
            "metadynamics {\n  name m\n  colvars d\n  hillWeight 0.1\n  hillWidth 1.0\n"
            "  newHillFrequency 2\n  useGrids on\n  keepHills on\n}\n"
            "histogram {\n  name hi\n  colvars d\n}\n"},
+      // a vector-valued variable: its hills carry length-prefixed vectors in the binary format
+      {"meta_vector_hills",
+       "colvarsTrajFrequency 0\n"
+       "colvar {\n  name c\n  cartesian {\n    atoms { atomNumbers 1 2 }\n  }\n}\n"
+       "metadynamics {\n  name m\n  colvars c\n  hillWeight 0.1\n  hillWidth 1.0\n"
+       "  newHillFrequency 2\n  useGrids off\n}\n"},
   };
   return c;
 }
